@@ -28,6 +28,7 @@ import (
 	"encoding/json"
 	"errors"
 	"fmt"
+	"hash/fnv"
 	"io"
 	"net/http"
 	"os"
@@ -44,6 +45,7 @@ import (
 	"google.golang.org/grpc"
 	"google.golang.org/grpc/codes"
 	"google.golang.org/grpc/status"
+	"google.golang.org/protobuf/encoding/protojson"
 	"google.golang.org/protobuf/proto"
 
 	openfgav1 "github.com/openfga/api/proto/openfga/v1"
@@ -73,7 +75,7 @@ var severity = map[int]int{clOK: 0, clValidation: 1, clClient: 2, clDeadline: 3,
 	clPanicEscaped: 7, clOverrun: 8, clMemory: 9, clCrash: 10}
 
 const (
-	baseOverrun    = 12 * time.Second // 4 x the server's request deadline (3 s) on an idle machine
+	baseOverrun    = 15 * time.Second // 5 x the server's request deadline (3 s) on an idle machine
 	memGrowthLimit = 768 << 20        // heap growth during one case
 	memHardLimit   = 3 << 30
 	childRestart   = 500 // cases per child (the memory datastore never frees models)
@@ -86,9 +88,14 @@ func loadFactor() float64 {
 	if err != nil {
 		return 1
 	}
-	var l1 float64
-	fmt.Sscanf(string(b), "%f", &l1)
-	f := l1 / float64(runtime.NumCPU())
+	var l1, l5, l15 float64
+	var running, total int
+	fmt.Sscanf(string(b), "%f %f %f %d/%d", &l1, &l5, &l15, &running, &total)
+	l := l1
+	if float64(running) > l { // the 1-minute average lags behind a burst
+		l = float64(running)
+	}
+	f := l / float64(runtime.NumCPU())
 	if f < 1 {
 		return 1
 	}
@@ -104,6 +111,7 @@ type caseDesc struct {
 	G     string `json:"g"`
 	S     uint64 `json:"s"`
 	V     int    `json:"v"`
+	W     bool   `json:"w,omitempty"` // witness of a listed finding: an overrun is not re-run
 	Note  string `json:"note,omitempty"`
 	Crash string `json:"crash,omitempty"`
 }
@@ -159,7 +167,7 @@ func (c *child) watch() {
 			}
 		}
 		if h > memHardLimit {
-			out, _ := json.Marshal(caseResult{Class: clMemory, Note: fmt.Sprintf("heap %d MB over the hard limit", h>>20), Rec: fmt.Sprintf("1 %d 0", clMemory)})
+			out, _ := json.Marshal(caseResult{Class: clMemory, Note: fmt.Sprintf("heap %d MB over the hard limit", h>>20), Rec: fmt.Sprintf("1 %d 0 0", clMemory)})
 			fmt.Println(string(out))
 			os.Exit(3)
 		}
@@ -286,7 +294,7 @@ func (c *child) send(st step) stepOut {
 func (c *child) runCase(d caseDesc) caseResult {
 	g := genByName(d.G)
 	if g == nil {
-		return caseResult{Class: clClient, Rec: fmt.Sprintf("1 %d 0", clClient), Note: "unknown generator " + d.G}
+		return caseResult{Class: clClient, Rec: fmt.Sprintf("1 %d 0 0", clClient), Note: "unknown generator " + d.G}
 	}
 	r := rec.NewRand(d.S)
 	tb := time.Now()
@@ -314,6 +322,7 @@ func (c *child) runCase(d caseDesc) caseResult {
 		res.Note = d.G
 	} else {
 		env := &caseEnv{}
+		h := fnv.New64a()
 		worst := clOK
 		var notes []string
 		var first stepOut
@@ -325,7 +334,26 @@ func (c *child) runCase(d caseDesc) caseResult {
 				}
 				st.rpc, st.wire = rpc, wire
 			}
+			h.Write([]byte(st.rpc.name))
+			if st.http != nil {
+				h.Write([]byte(st.http.verb + st.http.path))
+				h.Write(st.http.body)
+			} else if st.lazy == nil { // follow-up requests carry a fresh model id: not part of the input
+				h.Write(st.wire)
+			}
+			if os.Getenv("VERIF_C19_DUMP") != "" && st.http == nil {
+				m := st.rpc.newReq(c.fx, rec.NewRand(1))
+				proto.Reset(m)
+				if err := proto.Unmarshal(st.wire, m); err == nil {
+					fmt.Fprintf(os.Stderr, "REQUEST %s %s\n", st.rpc.name, clip(protojson.Format(m), 6000))
+				} else {
+					fmt.Fprintf(os.Stderr, "REQUEST %s undecodable: %v\n", st.rpc.name, err)
+				}
+			}
 			o := c.send(st)
+			if os.Getenv("VERIF_C19_DUMP") != "" {
+				fmt.Fprintf(os.Stderr, "ANSWER %s in %v: %v %s\n", className[o.class], o.dur, o.err, clip(string(o.resp), 300))
+			}
 			if i == 0 {
 				first = o
 			}
@@ -351,7 +379,7 @@ func (c *child) runCase(d caseDesc) caseResult {
 		} else if b.abs != "" {
 			res.Rec = fmt.Sprintf("7 %d %d %s", worst, len(b.steps), b.abs)
 		} else {
-			res.Rec = fmt.Sprintf("1 %d %d", worst, len(b.steps))
+			res.Rec = fmt.Sprintf("1 %d %d %d", worst, len(b.steps), h.Sum64())
 		}
 	}
 	res.MS = time.Since(t0).Milliseconds()
@@ -368,7 +396,7 @@ func (c *child) runCase(d caseDesc) caseResult {
 			if b.abs != "" {
 				res.Rec = fmt.Sprintf("7 %d %d %s", clMemory, len(b.steps), b.abs)
 			} else {
-				res.Rec = fmt.Sprintf("1 %d %d", clMemory, len(b.steps))
+				res.Rec = fmt.Sprintf("1 %d %d 0", clMemory, len(b.steps))
 			}
 		}
 	}
@@ -431,7 +459,7 @@ func childMain() {
 	for in.Scan() {
 		var d caseDesc
 		if err := json.Unmarshal(in.Bytes(), &d); err != nil {
-			emit(caseResult{Class: clClient, Rec: fmt.Sprintf("1 %d 0", clClient), Note: "bad description"})
+			emit(caseResult{Class: clClient, Rec: fmt.Sprintf("1 %d 0 0", clClient), Note: "bad description"})
 			continue
 		}
 		emit(c.runCase(d))
@@ -491,11 +519,14 @@ func startChild() (*proc, error) {
 	}
 	tb := &tailBuf{}
 	cmd.Stderr = tb
+	if os.Getenv("VERIF_C19_DUMP") != "" {
+		cmd.Stderr = io.MultiWriter(tb, os.Stderr)
+	}
 	if err := cmd.Start(); err != nil {
 		return nil, err
 	}
 	p := &proc{cmd: cmd, stdin: stdin, out: bufio.NewReaderSize(stdout, 1<<20), stderr: tb}
-	r, err := p.read(120 * time.Second)
+	r, err := p.read(time.Duration(float64(180*time.Second) * loadFactor()))
 	if err != nil || !r.Ready {
 		p.kill()
 		return nil, fmt.Errorf("child did not become ready: %v %s %s", err, r.Err, tb.head(600))
@@ -547,13 +578,34 @@ type runner struct {
 	p *proc
 }
 
+// run executes one case; a deadline overrun (or a child that stopped answering) must reproduce in a
+// fresh child before it is recorded: a true hang is deterministic, a slow answer on a loaded
+// machine is not.
 func (rn *runner) run(d caseDesc) {
+	class := rn.run1(d, d.W)
+	if class == clOverrun && !d.W {
+		rn.w.Stat("overrun_first_attempts", 1)
+		if rn.run1(d, true) != clOverrun {
+			rn.w.Stat("overrun_not_reproduced", 1)
+		}
+	}
+}
+
+func (rn *runner) run1(d caseDesc, final bool) int {
 	w := rn.w
 	if rn.p == nil || rn.p.served >= childRestart {
 		if rn.p != nil {
 			rn.p.kill()
 		}
-		p, err := startChild()
+		var p *proc
+		var err error
+		for attempt := 0; attempt < 4; attempt++ { // start-up can time out on a loaded machine
+			if p, err = startChild(); err == nil {
+				break
+			}
+			fmt.Fprintln(os.Stderr, "c19: child start failed, retrying:", clip(err.Error(), 300))
+			time.Sleep(time.Duration(2+3*attempt) * time.Second)
+		}
 		if err != nil {
 			fmt.Fprintln(os.Stderr, "c19:", err)
 			os.Exit(2)
@@ -583,16 +635,23 @@ func (rn *runner) run(d caseDesc) {
 		rn.p.kill()
 		d.Crash = note + " | " + rn.p.stderr.head(1500)
 		rn.p = nil
-		w.Case(d, rec.I(1), rec.I(class), rec.I(0))
+		if class == clOverrun && !final {
+			return class
+		}
+		w.Case(d, rec.I(1), rec.I(class), rec.I(0), rec.I(0))
 		w.Stat("class."+className[class], 1)
 		w.Stat("gen."+d.G, 1)
-		return
+		return class
 	}
 	if r.Class == clOverrun || r.Class == clMemory {
 		rn.p.served = childRestart
+		rn.p.cmd.Process.Kill() // a handler may still be spinning: do not wait for a graceful stop
+	}
+	if r.Class == clOverrun && !final {
+		return r.Class
 	}
 	if r.Class == clMemory && r.Rec == "" {
-		r.Rec = fmt.Sprintf("1 %d 0", clMemory)
+		r.Rec = fmt.Sprintf("1 %d 0 0", clMemory)
 	}
 	d.Note = r.Note
 	if r.Last != "" && r.Class >= clInternal {
@@ -620,6 +679,7 @@ func (rn *runner) run(d caseDesc) {
 	if r.PeakMB > 512 {
 		w.Stat("cases_peak_heap_over_512MB", 1)
 	}
+	return r.Class
 }
 
 func main() {
@@ -660,21 +720,26 @@ func main() {
 	// systematic part: the variants of every generator (thinned in the quick tier)
 	for _, g := range generators {
 		step := 1
-		if o.Tier != "thorough" && g.variants > 60 {
-			step = g.variants/60 + 1
+		if o.Tier != "thorough" && g.variants > 40 {
+			step = g.variants/40 + 1
 		}
 		off := 0
 		if step > 1 {
 			off = int(o.Seed % uint64(step))
 		}
 		for v := off; v < g.variants; v += step {
+			if g.name == "model" && v%nModelShapes == 15 && v/nModelShapes == 2 {
+				continue // the n = 24 diamond: run once, below, as a witness
+			}
 			rn.run(caseDesc{G: g.name, S: r.Uint64(), V: v})
 		}
 	}
 	// the F5 witnesses, always
 	for _, v := range []int{6, 9, 10} { // "-1|", "-5|", "-9223372036854775808|" with no page size
-		rn.run(caseDesc{G: "tok_read", S: 1, V: v})
+		rn.run(caseDesc{G: "tok_read", S: 1, V: v, W: true})
 	}
+	// the model_validation_exponential witness: e_i: e_{i+1} or e_{i+1} or e_{i+1} from parent, 24 levels
+	rn.run(caseDesc{G: "model", S: 1, V: 2*nModelShapes + 15, W: true})
 	// random part
 	total := 0
 	for _, g := range generators {
